@@ -6,4 +6,6 @@ import DSymVerif.Props.C13
 #print axioms DSymVerif.C13.core_certificate_sound
 #print axioms DSymVerif.C13.intersection_rows_are_orbit
 #print axioms DSymVerif.C13.core_rows_are_orbit
+#print axioms DSymVerif.C13.intersection_spec
+#print axioms DSymVerif.C13.core_spec
 #print axioms DSymVerif.C13.stabilizer_gens_fix_base
